@@ -82,3 +82,37 @@ Print Assumptions C05_validated_search_sound_within_fuel.
 
 (* C06 level: the executable mirror of the bucketed search, no confluence hypothesis *)
 
+
+(* ---- which of several equally ranked sequences is applied (simplify_repairs, /repo ca69cd1) ---- *)
+From GV Require C05.SimplifyModel C05.SimplifySpec C05.SimplifyProofs.
+
+(* the repaired tail (insertion-ordered dedup + any stable sort) determines the reported list, hence
+   the applied sequence, uniquely; the executable mirror is that list *)
+Theorem C05_simplify_deterministic : GV.C05.SimplifySpec.simplify_deterministic_stmt.
+Proof. exact GV.C05.SimplifyProofs.simplify_deterministic. Qed.
+Print Assumptions C05_simplify_deterministic.
+
+(* the pinned tail (any enumeration of a HashSet, unstable sort) admits two outputs with different heads *)
+Theorem C05_simplify_refuted_orig : GV.C05.SimplifySpec.simplify_refuted_orig_stmt.
+Proof. exact GV.C05.SimplifyProofs.simplify_refuted_orig. Qed.
+Print Assumptions C05_simplify_refuted_orig.
+
+Theorem C05_simplify_fixed_refines_orig : GV.C05.SimplifySpec.simplify_fixed_refines_orig_stmt.
+Proof. exact GV.C05.SimplifyProofs.simplify_fixed_refines_orig. Qed.
+Print Assumptions C05_simplify_fixed_refines_orig.
+
+(* same-rank sequences keep the order in which they were found *)
+Theorem C05_simplify_stable : GV.C05.SimplifySpec.simplify_stable_stmt.
+Proof. exact GV.C05.SimplifyProofs.simplify_stable. Qed.
+Print Assumptions C05_simplify_stable.
+
+(* same SET as C06's simplify: the C06 theorems about the reported set apply unchanged *)
+Theorem C05_simplify_same_set : GV.C05.SimplifySpec.simplify_same_set_stmt.
+Proof. exact GV.C05.SimplifyProofs.simplify_same_set. Qed.
+Print Assumptions C05_simplify_same_set.
+
+(* ---- deep parse stacks (/repo 4f40408; the C07 entries are the same statements) ---- *)
+From GV Require C07.DropSpec C07.DropProofs.
+Theorem C05_recover_drop_depth_bounded : GV.C07.DropSpec.recover_drop_depth_bounded_stmt.
+Proof. exact GV.C07.DropProofs.recover_drop_depth_bounded. Qed.
+Print Assumptions C05_recover_drop_depth_bounded.
